@@ -71,6 +71,7 @@ type KPlan struct {
 	// PreStyle picks the mix: 0 GetStatus, 1 synchronous setters, 2 NoWait setters
 	// then one WaitForPendingACKs, 3 a cycle of all commands, 4 like 3 with 1..3
 	// audit records ahead of every reply.
+	Resp     bool            `json:"resp_writer,omitempty"` // the real NetlinkClient is given a writer for raw responses (transport 1)
 	Preload  int             `json:"preload,omitempty"`
 	PreStyle int             `json:"pre_style,omitempty"`
 	SeqStart uint32          `json:"seq_start,omitempty"` // sequence number the transport used last (fast-forward towards the uint32 wrap)
@@ -97,12 +98,17 @@ func (p *KPlan) Valid() bool {
 	if p.Transport < 0 || p.Transport > 1 || p.ReplySize < 0 || p.ReplySize > 80 || len(p.Ops) > 250 || len(p.Tasks) > 4 {
 		return false
 	}
+	for _, f := range p.Faults {
+		if f.Spoof != 0 && p.Transport != 1 {
+			return false // the sender check lives in the real NetlinkClient
+		}
+	}
 	if (p.Scenario == 8 || p.Scenario == 17) && p.ReplySize < 32 {
 		return false // every supported kernel sends at least the 2.6.32 layout
 	}
 	if p.Scenario != 16 && p.Scenario != 18 {
 		for _, f := range p.Faults {
-			if f.DataTrunc != 0 || f.DataPad != 0 || (f.AckShort != 0 && p.Scenario != 8) {
+			if f.DataTrunc != 0 || f.DataPad != 0 || (f.AckShort != 0 && p.Scenario != 8 && !(p.Scenario == 17 && f.AckShort > 20)) {
 				return false // malformed datagrams belong to the C16 / C18 scenarios (a truncated ACK also to C08)
 			}
 			if f.Spoof != 0 && !(p.Scenario == 8 && p.Transport == 1) {
@@ -144,7 +150,7 @@ func (p *KPlan) Valid() bool {
 		if f.Errno < 0 || f.Errno > 4095 || f.UnsolBefore < 0 || f.UnsolAfter < 0 || f.UnsolMid < 0 || f.UnsolBefore > 6 || f.UnsolAfter > 6 || f.UnsolMid > 6 {
 			return false
 		}
-		if f.DelayNs < 0 || (f.DelayNs > 450e6 && p.Scenario != 17) || f.DataTrunc < 0 || f.DataPad < 0 || f.AckShort < 0 || f.Spoof < 0 || f.Spoof > 2 {
+		if f.DelayNs < 0 || (f.DelayNs > 450e6 && p.Scenario != 17) || f.DataTrunc < 0 || f.DataPad < 0 || f.AckShort < 0 || f.Spoof < 0 || f.Spoof > 2 || f.AckShort > 36 || f.SpoofLen < 0 || f.SpoofLen > 96 || (f.SpoofLen != 0 && f.SpoofLen < 16) || ((f.SpoofLen != 0 || f.SpoofMid) && f.Spoof == 0) {
 			return false
 		}
 		if f.DelayNs > 0 {
@@ -324,6 +330,7 @@ func genInit(r *core.Rng, p *KPlan) {
 	p.ReplySize = core.Pick(r, 32, 36, 40, 44, 44, 44, 48, 52, 64)
 	p.PortID = core.Pick(r, uint32(1), 4711, 1<<31, 1<<32-1, r.U32()|1)
 	p.Transport = r.Intn(2)
+	p.Resp = p.Transport == 1 && r.Chance(1, 3)
 	if r.Chance(1, 10) {
 		p.SeqStart = uint32(1<<32 - r.Range(1, 12)) // the counter wraps during this run
 	}
@@ -411,6 +418,10 @@ func GenKPlanC08(r *core.Rng) *KPlan {
 		for i := range p.Faults {
 			if r.Chance(1, 4) {
 				p.Faults[i].AckShort = 1 + r.Intn(20)
+				if r.Chance(1, 3) {
+					// an ACK that carries the errno and not (all of) the echoed request: 20..35 bytes
+					p.Faults[i].AckShort = 1 + r.Range(20, 35)
+				}
 			}
 		}
 	}
@@ -431,6 +442,11 @@ func GenKPlanC08(r *core.Rng) *KPlan {
 		for i := range p.Faults {
 			if r.Chance(1, 4) {
 				p.Faults[i].Spoof = r.Range(1, 2)
+				if r.Chance(1, 2) {
+					// of another size than the kernel's ACK, and/or between the ACK and the reply
+					p.Faults[i].SpoofLen = core.Pick(r, 16, 20, 24, 40, 60, 64, r.Range(16, 96))
+					p.Faults[i].SpoofMid = r.Chance(1, 2)
+				}
 			}
 		}
 	}
@@ -517,6 +533,13 @@ func GenKPlanC16(r *core.Rng) *KPlan {
 			// the status reply reaches the socket ahead of its ACK, with 0..2 audit records in between
 			f.DataFirst = true
 			f.UnsolMid = r.Intn(3)
+		}
+		if p.Transport == 1 && r.Chance(1, 10) {
+			// a forged datagram from another netlink socket (or a non-netlink address) ahead of the
+			// ACK or between the ACK and the status reply, of any size
+			f.Spoof = r.Range(1, 2)
+			f.SpoofLen = core.Pick(r, 0, 16, 20, 24, 40, 60, 64, r.Range(16, 96))
+			f.SpoofMid = r.Chance(1, 2)
 		}
 		p.Faults = append(p.Faults, f)
 	}
@@ -643,6 +666,14 @@ func GenKPlanC17(r *core.Rng) *KPlan {
 			p.RecvHard = append(p.RecvHard, r.Intn(4*n+4))
 		}
 	}
+	if r.Chance(1, 8) {
+		// ACKs of 20..35 bytes: the errno without (all of) the echoed request
+		for i := range p.Faults {
+			if r.Chance(1, 2) {
+				p.Faults[i].AckShort = 1 + r.Range(20, 35)
+			}
+		}
+	}
 	p.Auto = core.Pick(r, uint32(0), 0, 1, 2, 4)
 	p.AutoSalt = r.U32()
 	for i := 0; i < 60+int(p.Auto)*20; i++ {
@@ -657,6 +688,7 @@ func GenKPlanC17(r *core.Rng) *KPlan {
 func GenKPlanC18(r *core.Rng) *KPlan {
 	p := &KPlan{Scenario: 18, Transport: 1}
 	p.ReplySize = 44
+	p.Resp = r.Chance(1, 3)
 	p.PortID = core.Pick(r, uint32(1), 4711, 1<<31, 1<<32-1, r.U32()|1)
 	sendOp := func() KOp {
 		ln := core.Pick(r, 0, 1, 3, 4, 5, 16, 44, r.Intn(300), r.Intn(8971), 8969, 8970)
@@ -680,7 +712,12 @@ func GenKPlanC18(r *core.Rng) *KPlan {
 		// port id of a foreign sender: anything but 0, including the range >= 2^31
 		// that the kernel assigns to a process's second and later sockets
 		pid := core.Pick(r, uint32(1), 2, 4711, 1<<31-1, 1<<31, 1<<31+1, 1<<32-1, r.U32()|1, r.U32()|1<<31)
-		return KOp{K: kRecvRaw, A: uint32(ln), B: mode, C: via | r.U32()<<8, D: int64(pid)}
+		e := uint32(0)
+		if r.Chance(1, 3) {
+			// a blocking read, and/or one or two reads interrupted by a signal before the datagram is handed over
+			e = uint32(r.Intn(2)) | uint32(r.Intn(3))<<1
+		}
+		return KOp{K: kRecvRaw, A: uint32(ln), B: mode, C: via | r.U32()<<8, D: int64(pid), E: e}
 	}
 	n := r.Range(0, 8)
 	for i := 0; i < n; i++ {
